@@ -740,3 +740,37 @@ def shared_instances_guard_their_state(ck, F, rid):
             ck.ob(rid, "%s (class %s)" % ((rec.get("file") or "").split("/src/")[-1], short), True, "%s hands out a process-wide object; its per-message code writes %d member%s, %s" %
                   (short, n_w, "" if n_w == 1 else "s", "all under the object's own lock" if n_w else "none"), key="shared-instance|%s" % short)
     ck.require(n_cls >= 3, "only %d handler classes with a process-wide instance() found (4 confirmed by hand)" % n_cls)
+
+
+
+def msgtype_tables_by_cases(F):
+    """(type -> name, name -> type) of qtMsgTypeToString / stringToQtMsgType, evaluated on the source for the five message types and the five
+    documented names (engine/conc.py) - independent of whether the functions are a table, a switch or an if-chain.  A side that cannot be
+    evaluated is None."""
+    from engine.conc import Conc, Unknown
+    en = {e["name"]: e["value"] for e in F.enums["QtMsgType"]["enumerators"] if e["name"] in ("QtDebugMsg", "QtInfoMsg", "QtWarningMsg", "QtCriticalMsg", "QtFatalMsg")}
+    ts = F.fn("QtLogger::qtMsgTypeToString", flat=False)
+    st = F.fn("QtLogger::stringToQtMsgType", flat=False)
+    to_name, to_type = {}, {}
+    try:
+        for nm, v in en.items():
+            r = Conc(F).call_fn(ts, [v], {})
+            if not isinstance(r, str):
+                raise Unknown("not a string")
+            to_name[v] = r
+    except Unknown:
+        to_name = None
+    except Exception:
+        to_name = None
+    try:
+        for name in ("debug", "info", "warning", "critical", "fatal", "no-such-type"):
+            args = [name] + ([en["QtDebugMsg"]] if len(st.params) > 1 else [])
+            r = Conc(F).call_fn(st, args, {})
+            if not isinstance(r, int):
+                raise Unknown("not an integer")
+            to_type[name] = r
+    except Unknown:
+        to_type = None
+    except Exception:
+        to_type = None
+    return to_name, to_type
